@@ -272,6 +272,24 @@ def case_kfl(**p):
             sg = sym.s_sign(S[u, t])
             diff = sym.s_mul(sg, sym.s_sub(K[0, i + 1, u * dims + d, t], K[0, i, u * dims + d, t]))
             cons.append(('monotonicity', (u, d, t, i), diff, 'ineq'))
+    # output bounds as the layer's constraint establishes them (kl._approximately_project_bounds / ScaleConstraints)
+    omin, omax = p.get('omin'), p.get('omax')
+    if omin is not None and omax is not None:
+      for u in range(units):
+        for t in range(terms):
+          prod = 1
+          for d in range(dims):
+            prod = sym.s_mul(prod, sym.reduce(sym.maximum, np.array([sym.s_abs(K[0, i, u * dims + d, t]) for i in range(ls)], dtype=object),
+                                             axes=(0,), keepdims=False)[()])
+          cons.append(('output_bounds', ('max-product', u, t), sym.s_sub(1, prod), 'ineq'))
+          half = Fraction(omax - omin) / 2
+          cons.append(('scale_bounds', (u, t), sym.s_sub(half, sym.s_abs(S[u, t])), 'ineq'))
+    elif omin is not None or omax is not None:
+      for idx in np.ndindex(*K.shape):
+        cons.append(('output_bounds', ('non-negative',) + idx, K[idx], 'ineq'))
+      for u in range(units):
+        for t in range(terms):
+          cons.append(('scale_bounds', (u, t), S[u, t] if omin is not None else sym.s_mul(-1, S[u, t]), 'ineq'))
     _queries(case, passes, npreds, cons, eps, dict(k=K, s=S), dict(fn='kfl', params=p), kinds=None)
   return case
 
@@ -362,6 +380,10 @@ def cases(tier, seed):
   add('case_categorical', n=4, units=2, pairs=[[0, 1], [2, 3], [0, 3]], omin=-1.0, omax=None)
   add('case_kfl', ls=2, dims=2, units=1, terms=1, mono=[1, 0])
   add('case_kfl', ls=3, dims=2, units=2, terms=2, mono=[1, 1])
+  add('case_kfl', ls=2, dims=2, units=2, terms=1, mono=[1, 0], omin=0.0, omax=1.0)
+  add('case_kfl', ls=3, dims=2, units=1, terms=2, mono=[0, 0], omin=-1.0, omax=2.0)
+  add('case_kfl', ls=2, dims=2, units=2, terms=1, mono=[0, 1], omin=0.0)
+  add('case_kfl', ls=2, dims=2, units=1, terms=2, mono=[1, 1], omax=1.0)
   if tier == 'thorough':
     add('case_lattice', sizes=[3, 3, 2], units=3, mono=[1, 1, 0], edge=[[0, 2, 1], [1, 2, -1]], trap=[[0, 2, 1]], mdom=[[0, 1]],
         omin=0.0, omax=1.0, required=False, timeout=300)
